@@ -639,6 +639,10 @@ func (fx *FnExec) execInstr(in ssa.Instruction) {
 		mt := x.Type().Underlying().(*types.Map)
 		fx.mapInit(mt, r)
 		fx.setReg(x, Val{S: r})
+		if !escapes(x) {
+			a, b, c := fx.W.mapHeapNames(mt)
+			fx.private = append(fx.private, privateObj{ref: r, heaps: []string{a, b, c}})
+		}
 	case *ssa.MapUpdate:
 		fx.execMapUpdate(x)
 	case *ssa.MakeInterface:
@@ -1469,6 +1473,46 @@ func localOnly(v ssa.Value, seen map[ssa.Value]bool) bool {
 			if b, ok := x.X.Type().Underlying().(*types.Basic); ok && b.Info()&types.IsString != 0 {
 				return true
 			}
+		}
+	}
+	return false
+}
+
+// escapes: the reference held by v may become known outside this activation (passed to a call,
+// stored, boxed, merged or returned). Uses as the map/slice operand of reads and updates do not
+// let it escape.
+func escapes(v ssa.Value) bool {
+	refs := v.Referrers()
+	if refs == nil {
+		return true
+	}
+	for _, r := range *refs {
+		switch u := r.(type) {
+		case *ssa.MapUpdate:
+			if u.Key == v || u.Value == v {
+				return true
+			}
+		case *ssa.Lookup:
+			if u.Index == v {
+				return true
+			}
+		case *ssa.Range, *ssa.DebugRef:
+		case *ssa.Call:
+			b, ok := u.Call.Value.(*ssa.Builtin)
+			if !ok {
+				return true
+			}
+			switch b.Name() {
+			case "len", "cap":
+			case "delete":
+				if len(u.Call.Args) > 1 && u.Call.Args[1] == v {
+					return true
+				}
+			default:
+				return true
+			}
+		default:
+			return true
 		}
 	}
 	return false
